@@ -20,6 +20,9 @@ func NewHistogramFromCollection(c b6.UntypedCollection, id b6.CollectionID) (*in
 	} else {
 		h, err = newBucketedHistogram(c)
 	}
+	if err != nil {
+		return nil, err
+	}
 	h.CollectionID = id
 	h.Tags = append(h.Tags, b6.Tag{Key: "b6", Value: b6.NewStringExpression("histogram")})
 	return h, err
